@@ -26,11 +26,11 @@ type FlowSpec struct {
 type MatchKind int
 
 const (
-	NoMatch MatchKind = iota
-	Genuine           // all identifying fields match a probed TTL and the form is one the catalogue requires
-	DontCare          // identifying fields match, but the form is damaged or not in the catalogue: accepting or ignoring are both fine
-	PlainAck          // sack: acknowledgement on the probed connection without SACK blocks
-	PlainAckMaybe     // the same, but the segment is damaged: ending the run or skipping it are both fine
+	NoMatch       MatchKind = iota
+	Genuine                 // all identifying fields match a probed TTL and the form is one the catalogue requires
+	DontCare                // identifying fields match, but the form is damaged or not in the catalogue: accepting or ignoring are both fine
+	PlainAck                // sack: acknowledgement on the probed connection without SACK blocks
+	PlainAckMaybe           // the same, but the segment is damaged: ending the run or skipping it are both fine
 )
 
 // Match is the reference classification of one inbound packet for one endpoint.
